@@ -108,31 +108,52 @@ def _membership_literals(f, var=None):
 def _sty_sets(ck, prog):
     for meth in ("setPhosPhoSites", "get_phosphosequence", "get_STY_residues"):
         f = prog.fn(SEQ, "Sequence." + meth)
-        lits = _membership_literals(f)
-        ok = len(lits) == 1 and lits[0][1] == STY
-        ck.ob("PART-STY", SEQ_PATH + ":Sequence." + meth, ok, expected=sorted(STY), found=[sorted(l) for _, l in lits], slot="residue-set",
-              where=f.loc(lits[0][0]) if lits else f.loc())
-    # get_STY_residues: 1-based counter advanced once per residue, positions appended for members
+        lits = [l for l in _membership_literals(f) if all(isinstance(x, str) and len(x) == 1 for x in l[1])]
+        ck.shape(len(lits) == 1, "%s: exactly one membership test against a literal residue set" % meth, f.loc())
+        ck.ob("PART-STY", SEQ_PATH + ":Sequence." + meth, lits[0][1] == STY, expected=sorted(STY), found=sorted(lits[0][1]), slot="residue-set",
+              where=f.loc(lits[0][0]))
+    # get_STY_residues: positions (1-based) of the members, in order
     f = prog.fn(SEQ, "Sequence.get_STY_residues")
     construct = SEQ_PATH + ":Sequence.get_STY_residues"
     loops = [s for s in f.body() if isinstance(s, ast.For)]
+    ck.shape(len(loops) == 1, "get_STY_residues: one loop", f.loc())
+    lp = loops[0]
+    it = unparse(lp.iter).replace(" ", "")
     init = {s.targets[0].id: s.value for s in f.body() if isinstance(s, ast.Assign) and isinstance(s.targets[0], ast.Name)}
-    ok = False
-    if len(loops) == 1 and unparse(loops[0].iter) == "self.seq":
-        lp = loops[0]
-        incs = [s for s in lp.body if (isinstance(s, ast.Assign) and isinstance(s.targets[0], ast.Name)) or isinstance(s, ast.AugAssign)]
+    apps = [n for n in ast.walk(lp) if isinstance(n, ast.Call) and getattr(n.func, "attr", "") == "append"]
+    ck.shape(len(apps) == 1 and len(apps[0].args) == 1, "get_STY_residues: one append in the loop", f.loc(lp))
+    arg = apps[0].args[0]
+    offset = None
+    if it == "self.seq" and isinstance(lp.target, ast.Name):
+        # hand-kept counter: find `c = c + 1` / `c += 1` at top level of the body and where it sits relative to the append
         ctr = None
-        for s in incs:
-            t = s.targets[0] if isinstance(s, ast.Assign) else s.target
+        for s in lp.body:
             txt = unparse(s).replace(" ", "")
-            if txt in ("%s=%s+1" % (t.id, t.id), "%s+=1" % t.id):
-                ctr = t.id
-        apps = [n for n in ast.walk(lp) if isinstance(n, ast.Call) and getattr(n.func, "attr", "") == "append"]
-        cond_app = [s for s in lp.body if isinstance(s, ast.If)]
-        ok = ctr is not None and ctr in init and unparse(init[ctr]) == "1" and len(apps) == 1 and unparse(apps[0].args[0]) == ctr \
-            and lp.body.index([s for s in incs if unparse(s).replace(" ", "").startswith(ctr)][-1]) > lp.body.index(cond_app[0]) if cond_app else False
-    ck.ob("FOLD-positions", construct, bool(ok), expected="1-based position counter, advanced once per residue after its use", found=ok, slot="positions",
-          where=f.loc())
+            for name in init:
+                if txt in ("%s=%s+1" % (name, name), "%s+=1" % name, "%s=1+%s" % (name, name)):
+                    ctr = (name, s)
+        ck.shape(ctr is not None and isinstance(arg, ast.Name) and arg.id == ctr[0] and isinstance(init[ctr[0]], ast.Constant),
+                 "get_STY_residues: appended value is a hand-kept position counter", f.loc(lp))
+        app_stmt = next(s for s in lp.body if any(n is apps[0] for n in ast.walk(s)))
+        before = lp.body.index(ctr[1]) < lp.body.index(app_stmt)
+        jumps = [n for n in ast.walk(lp) if isinstance(n, (ast.Continue, ast.Break))]
+        ck.shape(not jumps, "get_STY_residues: no continue/break around the counter", f.loc(lp))
+        offset = init[ctr[0]].value + (1 if before else 0)
+    elif it in ("enumerate(self.seq)", "enumerate(self.seq,1)", "enumerate(self.seq,start=1)") and isinstance(lp.target, ast.Tuple):
+        iv = unparse(lp.target.elts[0])
+        start = 1 if it != "enumerate(self.seq)" else 0
+        txt = unparse(arg).replace(" ", "")
+        ck.shape(txt in (iv, iv + "+1", "1+" + iv), "get_STY_residues: appended value is the enumerate index (+1)", f.loc(lp))
+        offset = start + (0 if txt == iv else 1)
+    elif it in ("range(self.len)", "range(0,self.len)", "range(len(self.seq))", "range(0,len(self.seq))") and isinstance(lp.target, ast.Name):
+        iv = lp.target.id
+        txt = unparse(arg).replace(" ", "")
+        ck.shape(txt in (iv, iv + "+1", "1+" + iv), "get_STY_residues: appended value is the loop index (+1)", f.loc(lp))
+        offset = 0 if txt == iv else 1
+    else:
+        ck.shape(False, "get_STY_residues: loop over the residues", f.loc(lp))
+    ck.ob("FOLD-positions", construct, offset == 1, expected="positions are 1-based (first residue is position 1)", found="first residue reported as position %s" % offset,
+          slot="positions", where=f.loc(lp))
 
 
 def _effects(ck, prog):
@@ -159,144 +180,175 @@ def _effects(ck, prog):
         ck.ob("EFF", SEQ_PATH + ":Sequence." + meth, not bad, expected="no write besides the delta-max memo", found=bad, slot="read-only")
 
 
+def _phos_aliases(f):
+    """names that stand for the stored phosphosite list inside f"""
+    names = {"self.phosphosites"}
+    for n in ast.walk(f.node):
+        if isinstance(n, ast.Assign) and isinstance(n.targets[0], ast.Name) and unparse(n.value).replace(" ", "") in (
+                "self.phosphosites", "list(self.phosphosites)", "tuple(self.phosphosites)", "self.phosphosites[:]"):
+            names.add(n.targets[0].id)
+    return names
+
+
+def _const_stores(f):
+    """subscript stores of string constants: (store node, base name, index node, constant)"""
+    out = []
+    for n in ast.walk(f.node):
+        if isinstance(n, ast.Assign) and len(n.targets) == 1 and isinstance(n.targets[0], ast.Subscript) and isinstance(n.value, ast.Constant) \
+                and isinstance(n.value.value, str) and isinstance(n.targets[0].value, ast.Name):
+            out.append((n, n.targets[0].value.id, n.targets[0].slice, n.value.value))
+    return out
+
+
 def _substitution(ck, prog):
-    """positions = self.phosphosites and letter 'E' in all three phospho functions"""
-    # kappa_at_maxPhos
+    """positions = the stored phosphosites and letter 'E' in all three phospho functions"""
+    # ---- kappa_at_maxPhos
     f = prog.fn(SEQ, "Sequence.kappa_at_maxPhos")
     c = SEQ_PATH + ":Sequence.kappa_at_maxPhos"
-    loops = [n for n in ast.walk(f.node) if isinstance(n, ast.For)]
-    ok = False
-    letter = None
-    if len(loops) == 1 and unparse(loops[0].iter) == "self.phosphosites":
-        v = loops[0].target.id
-        st = loops[0].body
-        if len(st) == 1 and isinstance(st[0], ast.Assign) and isinstance(st[0].targets[0], ast.Subscript) \
-                and unparse(st[0].targets[0].slice) == v and isinstance(st[0].value, ast.Constant):
-            letter = st[0].value.value
-            base = unparse(st[0].targets[0].value)
-            # base is list(self.seq); result object from "".join(base) -> Sequence(...) fresh -> .kappa()
-            src = [n for n in ast.walk(f.node) if isinstance(n, ast.Assign) and unparse(n.targets[0]) == base]
-            ok = letter == "E" and any(unparse(n.value) == "list(self.seq)" for n in src)
-    ck.ob("SIB-substitution", c, ok, expected="E written at every index of self.phosphosites in a copy of the sequence", found=letter, slot="letter-and-positions",
-          where=f.loc())
-    rets = [n for n in ast.walk(f.node) if isinstance(n, ast.Return)]
-    kinds = sorted(unparse(r.value) for r in rets)
+    stores = _const_stores(f)
+    ck.shape(len(stores) >= 1, "kappa_at_maxPhos: substitution written as constant stores into a list copy", f.loc())
+    al = _phos_aliases(f)
+    for node, base, idx, letter in stores:
+        ck.ob("SIB-substitution", c, letter == "E", expected="E", found=letter, slot="letter", where=f.loc(node), note="phosphorylated residues are replaced by glutamate")
+        # the index: loop variable of a loop over the phosphosites
+        lp = next((l for l in ast.walk(f.node) if isinstance(l, ast.For) and any(x is node for x in ast.walk(l))), None)
+        ck.shape(lp is not None and unparse(lp.iter).replace(" ", "") in al and isinstance(lp.target, ast.Name), "kappa_at_maxPhos: store inside a loop over the phosphosites", f.loc(node))
+        ck.ob("SIB-substitution", c, isinstance(idx, ast.Name) and idx.id == lp.target.id, expected="index = the stored (0-based) phosphosite", found=unparse(idx), slot="positions",
+              where=f.loc(node))
+        src = [n for n in ast.walk(f.node) if isinstance(n, ast.Assign) and unparse(n.targets[0]) == base and isinstance(n.value, ast.Call)]
+        ck.shape(len(src) >= 1, "kappa_at_maxPhos: working copy assigned once", f.loc())
+        first = sorted((n for n in src if n.lineno < node.lineno), key=lambda n: n.lineno)
+        ck.shape(len(first) >= 1, "kappa_at_maxPhos: working copy assigned before the stores", f.loc())
+        ck.ob("SIB-substitution", c, unparse(first[-1].value).replace(" ", "") == "list(self.seq)", expected="a copy of the stored sequence: list(self.seq)",
+              found=unparse(first[-1].value), slot="copy", where=f.loc(first[-1]))
     fresh = [n for n in ast.walk(f.node) if isinstance(n, ast.Call) and prog.class_of_ctor(f.mod, n) == "Sequence"]
-    okr = len(rets) == 2 and "self.kappa()" in kinds and len(fresh) == 1 and len(fresh[0].args) == 1 and not fresh[0].keywords \
-        and any(k.endswith(".kappa()") and k != "self.kappa()" for k in kinds)
-    ck.ob("SIB-substitution", c, okr, expected="kappa of a fresh object built from the substituted string (own kappa when there are no sites)",
-          found=kinds, slot="result", where=f.loc())
-    # get_phosphosequence
+    ck.shape(len(fresh) == 1, "kappa_at_maxPhos: one derived object", f.loc())
+    ck.ob("CTOR-fresh", c, len(fresh[0].args) == 1 and not fresh[0].keywords, expected="Sequence(<substituted string>) and nothing carried over", found=unparse(fresh[0]), slot="result-object",
+          where=f.loc(fresh[0]))
+    rets = [n for n in ast.walk(f.node) if isinstance(n, ast.Return) and n.value is not None]
+    kinds = sorted(unparse(r.value) for r in rets)
+    ck.shape(all(k.endswith(".kappa()") for k in kinds) and kinds, "kappa_at_maxPhos: every return is some object's kappa()", f.loc())
+    objname = None
+    for n in ast.walk(f.node):
+        if isinstance(n, ast.Assign) and n.value is fresh[0] and isinstance(n.targets[0], ast.Name):
+            objname = n.targets[0].id
+    others = [k for k in kinds if k not in ("self.kappa()", "%s.kappa()" % objname)]
+    ck.ob("SIB-substitution", c, ("%s.kappa()" % objname) in kinds and not others, expected="kappa of the substituted object (own kappa only when there are no sites)", found=kinds,
+          slot="result", where=f.loc())
+    # ---- get_phosphosequence: decision table of the per-residue walk
     g = prog.fn(SEQ, "Sequence.get_phosphosequence")
     c2 = SEQ_PATH + ":Sequence.get_phosphosequence"
     loops = [s for s in g.body() if isinstance(s, ast.For)]
-    ok2 = False
-    detail = {}
-    if len(loops) == 1 and unparse(loops[0].iter) == "self.seq":
-        lp = loops[0]
-        ifs = [s for s in lp.body if isinstance(s, ast.If)]
-        if len(ifs) == 1 and isinstance(ifs[0].test, ast.Compare) and isinstance(ifs[0].test.ops[0], ast.In) \
-                and unparse(ifs[0].test.comparators[0]) == "self.phosphosites":
-            ctr = unparse(ifs[0].test.left)
-            t_apps = [s for s in ifs[0].body if isinstance(s, ast.Assign) and isinstance(s.value, ast.BinOp)]
-            e_apps = [s for s in ifs[0].orelse if isinstance(s, ast.Assign) and isinstance(s.value, ast.BinOp)]
-            acc = unparse(t_apps[0].targets[0]) if t_apps else None
-            on = unparse(t_apps[0].value).replace(" ", "") if t_apps else None
-            off = unparse(e_apps[0].value).replace(" ", "") if e_apps else None
-            inc = [s for s in lp.body if unparse(s).replace(" ", "") in ("%s=%s+1" % (ctr, ctr), "%s+=1" % ctr)]
-            init = [s for s in g.body() if isinstance(s, ast.Assign) and unparse(s.targets[0]) == ctr and unparse(s.value) == "0"]
-            detail = {"on": on, "off": off, "counter": ctr, "increments": len(inc), "init0": bool(init)}
-            jumps = [n for n in ast.walk(lp) if isinstance(n, (ast.Continue, ast.Break))]
-            detail["jumps"] = len(jumps)
-            ok2 = not jumps and acc is not None and on == "%s+'E'" % acc and off in ("%s+self.seq[%s]" % (acc, ctr), "%s+%s" % (acc, lp.target.id)) \
-                and len(inc) == 1 and lp.body.index(inc[0]) > lp.body.index(ifs[0]) and bool(init) \
-                and len(t_apps) == 1 and len(e_apps) == 1
-    ck.ob("SIB-substitution", c2, ok2, expected="one output letter per residue: 'E' at stored indices, the residue itself elsewhere; index advanced once per residue",
-          found=detail, slot="walk", where=g.loc())
-    # calculateKappaDistOfPhosphoStates
+    ck.shape(len(loops) == 1 and unparse(loops[0].iter) == "self.seq" and isinstance(loops[0].target, ast.Name), "get_phosphosequence: one loop over the residues", g.loc())
+    lp = loops[0]
+    from lcsa.sym import AStr, astr_cat
+    ev = Evaluator(prog, positive=())
+    fr = _Frame(g, 0)
+    env = {"self": ObjV("Sequence")}
+    for st in g.body()[:g.body().index(lp)]:
+        if isinstance(st, ast.Assign) and isinstance(st.targets[0], ast.Name):
+            env[st.targets[0].id] = ev.eval(st.value, env, fr)
+    strs = [n for n, v in env.items() if v == ""]
+    nums = [n for n, v in env.items() if isinstance(v, Rat) and v.equals(Rat.const(0))]
+    ck.shape(len(strs) == 1 and len(nums) == 1, "get_phosphosequence: one string accumulator ('') and one index (0)", g.loc())
+    S, I = strs[0], nums[0]
+    e2 = dict(env)
+    e2[S] = AStr("S")
+    e2[I] = Rat.atom("i")
+    e2[lp.target.id] = AStr("seq[i]")
+    rows = []
+    for p in ev.exec_block(lp.body, [Path([], "live", None, e2)], fr):
+        kind = "next" if p.kind in ("live", "continue") else p.kind
+        rows.append((p.conds, (kind, repr(p.env.get(S)), repr(p.env.get(I))) if kind == "next" else (kind,)))
+    isp = ("opaque", "i in phosphosites")
+    sty = ("opaque", "seq[i] in STY")
+    nxt = repr(Rat.atom("i") + Rat.const(1))
+    spec = [([isp, sty], ("next", repr(astr_cat(AStr("S"), "E")), nxt)),
+            ([("not", isp)], ("next", repr(astr_cat(AStr("S"), AStr("seq[i]"))), nxt))]
+    mis = compare_rows(rows, spec, positive=())
+    ck.ob("SIB-substitution", c2, mis is None, expected="per residue: 'E' when its index is a stored phosphosite, the residue itself otherwise; index advanced once per residue",
+          found=mis or "equivalent", slot="walk", where=g.loc(lp), note="(a stored site that is not S/T/Y is a don't-care: the setter never stores one)")
+    rets = [n for n in ast.walk(g.node) if isinstance(n, ast.Return) and n.value is not None]
+    ck.ob("SIB-substitution", c2, [unparse(r.value) for r in rets] == [S], expected="returns the accumulated string", found=[unparse(r.value) for r in rets], slot="returns", where=g.loc())
+    # ---- calculateKappaDistOfPhosphoStates
     h = prog.fn(SEQ, "Sequence.calculateKappaDistOfPhosphoStates")
     c3 = SEQ_PATH + ":Sequence.calculateKappaDistOfPhosphoStates"
-    stores = [n for n in ast.walk(h.node) if isinstance(n, ast.Assign) and isinstance(n.targets[0], ast.Subscript)
-              and isinstance(n.value, ast.Constant) and isinstance(n.value.value, str)]
-    ok3 = len(stores) == 1 and stores[0].value.value == "E" and unparse(stores[0].targets[0].slice).startswith("self.phosphosites[")
-    ck.ob("SIB-substitution", c3, ok3, expected="E written at self.phosphosites[k] for the k-th switched-on site", found=[unparse(s) for s in stores],
-          slot="letter-and-positions", where=h.loc())
+    stores = _const_stores(h)
+    ck.shape(len(stores) >= 1, "phosphostate enumeration: substitution written as constant stores", h.loc())
+    al = _phos_aliases(h)
+    for node, base, idx, letter in stores:
+        ck.ob("SIB-substitution", c3, letter == "E", expected="E", found=letter, slot="letter", where=h.loc(node))
+        ck.shape(isinstance(idx, ast.Subscript) and unparse(idx.value).replace(" ", "") in al, "phosphostate enumeration: index read from the phosphosite list", h.loc(node))
 
 
 def _distribution(ck, prog):
     h = prog.fn(SEQ, "Sequence.calculateKappaDistOfPhosphoStates")
     c = SEQ_PATH + ":Sequence.calculateKappaDistOfPhosphoStates"
     outer = [s for s in h.body() if isinstance(s, ast.For)]
-    ok_it = False
-    if len(outer) == 1 and isinstance(outer[0].iter, ast.Call) and unparse(outer[0].iter.func) == "itertools.product":
-        it = outer[0].iter
-        a0 = it.args[0] if it.args else None
-        rep = [k for k in it.keywords if k.arg == "repeat"]
-        ok_it = isinstance(a0, ast.Constant) and a0.value == "01" and len(rep) == 1 and unparse(rep[0].value) == "len(self.phosphosites)"
-    ck.ob("ALG-states", c, ok_it, expected="itertools.product('01', repeat=len(self.phosphosites)) (binary counting order, 2^k states)",
-          found=unparse(outer[0].iter) if outer else None, slot="iteration", where=h.loc())
-    if not outer:
-        return
+    ck.shape(len(outer) == 1 and isinstance(outer[0].iter, ast.Call) and unparse(outer[0].iter.func) in ("itertools.product", "product") and isinstance(outer[0].target, ast.Name),
+             "phosphostate enumeration: one loop over itertools.product(...)", h.loc())
+    it = outer[0].iter
+    a0 = it.args[0] if it.args else None
+    rep = [k for k in it.keywords if k.arg == "repeat"]
+    ck.shape(isinstance(a0, ast.Constant) and len(rep) == 1, "phosphostate enumeration: product(<literal>, repeat=...)", h.loc(it))
+    ck.ob("ALG-states", c, a0.value == "01", expected="product over '01' (binary counting order: off before on)", found=a0.value, slot="alphabet", where=h.loc(it))
+    ck.ob("ALG-states", c, unparse(rep[0].value).replace(" ", "") in ("len(self.phosphosites)",), expected="repeat = number of stored phosphosites (2^k states)",
+          found=unparse(rep[0].value), slot="repeat", where=h.loc(it))
     lp = outer[0]
     status = lp.target.id
-    # inner walk: for i in status: if int(i) == 1: store ; indx += 1 unconditionally
     inner = [s for s in lp.body if isinstance(s, ast.For)]
-    ok_in = False
-    if len(inner) == 1 and unparse(inner[0].iter) == status:
-        iv = inner[0].target.id
-        ifs = [s for s in inner[0].body if isinstance(s, ast.If)]
-        ctr_inc = [s for s in inner[0].body if not isinstance(s, ast.If)]
-        if len(ifs) == 1 and unparse(ifs[0].test).replace(" ", "") in ("int(%s)==1" % iv, "%s=='1'" % iv) and not ifs[0].orelse:
-            st = ifs[0].body
-            if len(st) == 1 and isinstance(st[0], ast.Assign) and isinstance(st[0].targets[0], ast.Subscript):
-                k = unparse(st[0].targets[0].slice)
-                ctr = k[len("self.phosphosites["):-1] if k.startswith("self.phosphosites[") else None
-                ok_in = ctr is not None and len(ctr_inc) == 1 and unparse(ctr_inc[0]).replace(" ", "") in ("%s=%s+1" % (ctr, ctr), "%s+=1" % ctr) \
-                    and any(isinstance(s, ast.Assign) and unparse(s.targets[0]) == ctr and unparse(s.value) == "0" for s in lp.body)
-    ck.ob("ALG-states", c, ok_in, expected="k-th flag '1' switches on the k-th stored site; counter reset per state and advanced once per flag",
-          found=ok_in, slot="flags-to-sites", where=h.loc())
-    # fresh copy per state
-    copies = [s for s in lp.body if isinstance(s, ast.Assign) and unparse(s.value) == "list(self.seq)"]
-    ck.ob("ALG-states", c, len(copies) == 1 and lp.body.index(copies[0]) == 0, expected="each state starts from a fresh copy of the stored sequence",
-          found=[unparse(s) for s in copies], slot="fresh-copy", where=h.loc())
+    ck.shape(len(inner) == 1 and unparse(inner[0].iter) == status and isinstance(inner[0].target, ast.Name), "phosphostate enumeration: inner walk over the status flags", h.loc(lp))
+    iv = inner[0].target.id
+    ifs = [s for s in inner[0].body if isinstance(s, ast.If)]
+    rest = [s for s in inner[0].body if not isinstance(s, ast.If)]
+    ck.shape(len(ifs) == 1 and not ifs[0].orelse and isinstance(ifs[0].test, ast.Compare) and len(ifs[0].body) >= 1, "phosphostate enumeration: `if <flag is on>: substitute`", h.loc(inner[0]))
+    t = unparse(ifs[0].test).replace(" ", "")
+    on_tests = {"int(%s)==1" % iv: True, "%s=='1'" % iv: True, '%s=="1"' % iv: True, "int(%s)==0" % iv: False, "%s=='0'" % iv: False, "int(%s)!=0" % iv: True, "int(%s)!=1" % iv: False}
+    ck.shape(t in on_tests, "phosphostate enumeration: flag test against a literal", h.loc(ifs[0]))
+    ck.ob("ALG-states", c, on_tests[t], expected="flag 1 = phosphorylated", found=unparse(ifs[0].test), slot="flag-meaning", where=h.loc(ifs[0]))
+    sts = [x for x in ifs[0].body if isinstance(x, ast.Assign) and isinstance(x.targets[0], ast.Subscript) and isinstance(x.targets[0].slice, ast.Subscript)]
+    ck.shape(len(sts) == 1, "phosphostate enumeration: one store at phosphosites[k] under the flag test", h.loc(ifs[0]))
+    st = sts[0]
+    ctr = unparse(st.targets[0].slice.slice)
+    incs = [s for s in rest if unparse(s).replace(" ", "") in ("%s=%s+1" % (ctr, ctr), "%s+=1" % ctr)]
+    cond_incs = [x for x in ifs[0].body if unparse(x).replace(" ", "") in ("%s=%s+1" % (ctr, ctr), "%s+=1" % ctr)]
+    ck.shape(len(ifs[0].body) == 1 + len(cond_incs), "phosphostate enumeration: only the store (and counter updates) under the flag test", h.loc(ifs[0]))
+    inits = [s for s in lp.body if isinstance(s, ast.Assign) and unparse(s.targets[0]) == ctr]
+    ck.shape(len(inits) == 1 and isinstance(inits[0].value, ast.Constant), "phosphostate enumeration: flag counter initialised per state", h.loc(lp))
+    ck.ob("ALG-states", c, len(incs) == 1 and not cond_incs and inits[0].value.value == 0,
+          expected="k-th flag belongs to the k-th stored site: counter starts at 0 and advances once per flag (on or off)",
+          found={"init": unparse(inits[0].value), "unconditional_increments": len(incs), "increments_only_when_on": len(cond_incs)}, slot="flags-to-sites", where=h.loc(inner[0]))
+    copies = [s for s in lp.body if isinstance(s, ast.Assign) and unparse(s.targets[0]) == unparse(st.targets[0].value)]
+    ck.shape(len(copies) >= 1, "phosphostate enumeration: working copy assigned in the state loop", h.loc(lp))
+    ck.ob("ALG-states", c, unparse(copies[0].value).replace(" ", "") == "list(self.seq)" and lp.body.index(copies[0]) < lp.body.index(inner[0]),
+          expected="each state starts from a fresh copy of the stored sequence", found=unparse(copies[0].value), slot="fresh-copy", where=h.loc(copies[0]))
     # tuple layout
     ctors = [n for n in ast.walk(lp) if isinstance(n, ast.Assign) and isinstance(n.value, ast.Call) and prog.class_of_ctor(h.mod, n.value) == "Sequence"]
     apps = [n for n in ast.walk(lp) if isinstance(n, ast.Call) and getattr(n.func, "attr", "") == "append" and n.args and isinstance(n.args[0], ast.Tuple)]
+    ck.shape(len(ctors) == 1 and len(apps) == 1 and isinstance(ctors[0].targets[0], ast.Name), "phosphostate enumeration: one derived object and one appended tuple per state", h.loc(lp))
+    ck.ob("CTOR-fresh", c, len(ctors[0].value.args) == 1 and not ctors[0].value.keywords, expected="Sequence(<substituted string>) per state", found=unparse(ctors[0].value), slot="state-object",
+          where=h.loc(ctors[0]))
+    obj = ctors[0].targets[0].id
+    elts = apps[0].args[0].elts
     want = ["kappa", "Fplus", "Fminus", "FCR", "NCPR", "meanHydropathy"]
-    ok_t = False
-    found = None
-    if len(ctors) == 1 and len(apps) == 1 and len(ctors[0].value.args) == 1 and not ctors[0].value.keywords:
-        obj = unparse(ctors[0].targets[0])
-        elts = apps[0].args[0].elts
-        found = [unparse(e) for e in elts]
-        ok_t = len(elts) == 7 and all(isinstance(e, ast.Call) and unparse(e.func) == "%s.%s" % (obj, w) and not e.args for e, w in zip(elts[:6], want)) \
-            and unparse(elts[6]) == status
-        rets = [n for n in ast.walk(h.node) if isinstance(n, ast.Return) and n.value is not None]
-        ok_t = ok_t and len(rets) == 1 and unparse(rets[0].value) == unparse(apps[0].func.value)
-    ck.ob("ALG-tuple", c, ok_t, expected="(kappa, f+, f-, FCR, NCPR, hydropathy, status) of ONE fresh Sequence(<substituted string>) per state",
-          found=found, slot="layout", where=h.loc())
+    got = []
+    for e in elts[:-1]:
+        if isinstance(e, ast.Call) and isinstance(e.func, ast.Attribute) and not e.args:
+            got.append((unparse(e.func.value), e.func.attr))
+        else:
+            got.append((None, unparse(e)))
+    ck.ob("ALG-tuple", c, len(elts) == 7 and [g[1] for g in got] == want and all(g[0] == obj for g in got) and unparse(elts[-1]) == status,
+          expected="(kappa, f+, f-, FCR, NCPR, hydropathy, status) all of the state's own object", found=[unparse(e) for e in elts], slot="layout", where=h.loc(apps[0]))
+    rets = [n for n in ast.walk(h.node) if isinstance(n, ast.Return) and n.value is not None]
+    ck.shape(len(rets) >= 1, "phosphostate enumeration returns something", h.loc())
+    lst = unparse(apps[0].func.value)
+    ck.ob("ALG-tuple", c, all(unparse(r.value).replace(" ", "") in (lst, "list(%s)" % lst) for r in rets) and len(rets) == 1, expected="returns the list of state tuples, computed afresh",
+          found=[unparse(r.value) for r in rets], slot="returns", where=h.loc())
 
 
 def _void_api(ck, prog):
-    """clear_phosphosites / get_kappa_after_phosphorylation / get_full_phosphostatus_kappa_distribution"""
-    f = prog.fn(SP, "SequenceParameters.set_phosphosites")
-    calls = [n for n in ast.walk(f.node) if isinstance(n, ast.Call)]
-    ok = len(calls) == 1 and unparse(calls[0]) == "self.SeqObj.setPhosPhoSites(%s)" % f.params()[1]
-    ck.ob("BIND-api", f.mod.relpath + ":" + f.qual, ok, expected="self.SeqObj.setPhosPhoSites(<the argument>)", found=[unparse(c) for c in calls],
-          slot="forwards", where=f.loc())
-    f = prog.fn(SP, "SequenceParameters.clear_phosphosites")
-    calls = [n for n in ast.walk(f.node) if isinstance(n, ast.Call)]
-    ok = len(calls) == 1 and unparse(calls[0]) == "self.SeqObj.clear_phosphosites()"
-    ck.ob("BIND-api", f.mod.relpath + ":" + f.qual, ok, expected="self.SeqObj.clear_phosphosites()", found=[unparse(c) for c in calls], slot="forwards", where=f.loc())
-    for api, backend in (("get_kappa_after_phosphorylation", "kappa_at_maxPhos"),
-                         ("get_full_phosphostatus_kappa_distribution", "calculateKappaDistOfPhosphoStates")):
-        f = prog.fn(SP, "SequenceParameters." + api)
-        rets = bind.returns_of(f)
-        ok = len(rets) == 1 and unparse(rets[0].value) == "self.SeqObj.%s()" % backend
-        ck.ob("BIND-api", f.mod.relpath + ":" + f.qual, ok, expected="return self.SeqObj.%s()" % backend, found=[unparse(r.value) for r in rets],
-              slot="forwards", where=f.loc())
-
-
-def run_thorough(ck, prog):
-    from props import thorough
-    ck.attempt(thorough.doc_phospho_tuple, ck, prog)
+    """set_phosphosites / clear_phosphosites (void) and the two kappa getters"""
+    bind.check_wrapper(ck, prog, "BIND-api", SP, "SequenceParameters.set_phosphosites", SEQ + ":Sequence.setPhosPhoSites", argmap={"phosphosites": "listOfPsites"}, void=True)
+    bind.check_wrapper(ck, prog, "BIND-api", SP, "SequenceParameters.clear_phosphosites", SEQ + ":Sequence.clear_phosphosites", void=True)
+    bind.check_wrapper(ck, prog, "BIND-api", SP, "SequenceParameters.get_kappa_after_phosphorylation", SEQ + ":Sequence.kappa_at_maxPhos")
+    bind.check_wrapper(ck, prog, "BIND-api", SP, "SequenceParameters.get_full_phosphostatus_kappa_distribution", SEQ + ":Sequence.calculateKappaDistOfPhosphoStates")
